@@ -94,6 +94,22 @@ def seq_behaviour(cls, text):
             return f"complement {str(s.complement())!r}"
         if str(s.complement().complement()) != text:
             return "complement is not an involution"
+    # a sequence restored from a pickle / deep copy behaves like the original
+    import copy as _copy
+    import pickle as _pickle
+    for how, r in (("pickle", _pickle.loads(_pickle.dumps(s))), ("deepcopy", _copy.deepcopy(s))):
+        try:
+            views = {"str": str(r), "copy": str(r.copy()), "slice": str(r[1:]), "reverse": str(r.reverse()), "concat": str(r + r)}
+            if cls is seq.NucleotideSequence:
+                views["complement"] = str(r.complement().complement())
+        except Exception as e:
+            return f"sequence restored by {how}: {type(e).__name__}: {e}"
+        exp = {"str": text, "copy": text, "slice": text[1:], "reverse": text[::-1], "concat": text + text, "complement": text}
+        for k, v in views.items():
+            if v != exp[k]:
+                return f"sequence restored by {how}: {k} gives {v!r}, expected {exp[k]!r}"
+        if r != s or r.copy() != s:
+            return f"sequence restored by {how} (or its copy) is not equal to the original"
     # out-of-range code assignment must not silently alias
     n = len(s.get_alphabet())
     for bad in (n, 256 + 1, 259):
